@@ -29,14 +29,28 @@ import strax
 RUNTIME = {}  # token -> dict(sources={(run_id, name): [(start, end, array)]}, calls=Counter, hook=callable|None)
 
 
+FIELD_OF = {}  # data type -> value field name of the spec currently being run (see prepare)
+
+
 def vfield(d):
-    return "v_" + d
+    return FIELD_OF.get(d, "v_" + d)
+
+
+def prepare(spec):
+    """Value-field names: same-kind data types need distinct names (strax merges them column-wise), but every
+    distinct dtype costs numba compilations, so names are slots v0, v1, ... numbered within a data kind."""
+    FIELD_OF.clear()
+    kd = kinds(spec)
+    n_of_kind = collections.Counter()
+    for d in all_types(spec):
+        FIELD_OF[d] = f"v{n_of_kind[kd[d]]}"
+        n_of_kind[kd[d]] += 1
 
 
 def dtype_of(d, cut=False):
     if cut:
-        return np.dtype(strax.time_fields + [(("cut", "cut_" + d), np.bool_)])
-    return np.dtype(strax.time_fields + [(("value of " + d, vfield(d)), np.int64)])
+        return np.dtype(strax.time_fields + [("cut_" + d, np.bool_)])
+    return np.dtype(strax.time_fields + [(vfield(d), np.int64)])
 
 
 # ----------------------------------------------------------------------------------------------------
@@ -221,6 +235,7 @@ def _attrs(node, out_names):
 
 def build_classes(spec, token, unit=1):
     """Return the list of plugin classes of the spec; they look their runtime data up under `token`."""
+    prepare(spec)
     kd = kinds(spec)
     classes = []
     for n in spec["nodes"]:
@@ -464,7 +479,13 @@ def st_graph(draw, max_nodes=6, ops=ALL_OPS, max_sources=2, save_policies=False,
             kind[outs[1]], disjoint[outs[1]] = "k_" + outs[1], disjoint[d0]
         elif op == "loop":
             evs = [t for t in types if disjoint[t]]
-            if evs:
+            # favour joining the two outputs of one multi-output plugin (both siblings needed by one request)
+            sib = [(m["outs"][0], m["outs"][1]) for m in nodes if m["op"] == "multi" and disjoint[m["outs"][0]]]
+            if sib and draw(st.booleans()):
+                ev, thing = draw(st.sampled_from(sib))
+                node = dict(name=nm, op=op, deps=[ev, thing])
+                kind[nm], disjoint[nm] = kind[ev], True
+            elif evs:
                 ev = draw(st.sampled_from(evs))
                 th = [t for t in types if kind[t] != kind[ev]]
                 if th:
@@ -515,4 +536,19 @@ def has_lag(spec):
         deps = n.get("deps", [])
         if len(deps) >= 2 and any(d in withh for d in deps):
             return True
+    return False
+
+
+def has_diamond(spec):
+    """True if some plugin has two dependencies that share an upstream data type (one may be the other's
+    ancestor).  Then both paths read one mailbox at different paces (zero-duration chunks, re-chunking by a
+    multi-dependency plugin in between ...) and a small capacity can legitimately be below the chunk lag."""
+    for n in spec["nodes"]:
+        deps = n.get("deps", [])
+        if len(deps) >= 2:
+            clos = [ancestors(spec, d) | {d} for d in deps]
+            for i in range(len(clos)):
+                for j in range(i + 1, len(clos)):
+                    if clos[i] & clos[j]:
+                        return True
     return False
